@@ -10,7 +10,7 @@ The command is the parser-level `Cmd` of one (built) level; what the usage line 
 beyond it (value names, usage name, `override_usage`, `subcommand_value_name`, which
 subcommands are hidden) is the record `UInfo`.  Text is unstyled (`StyledStr`'s `Display`
 strips the escape sequences).  `none` = one of the `unwrap`/`expect`/`debug_assert!`s fires.
-The `flatten_help` branch of `write_help_usage` is not modelled.
+The `flatten_help` branch of `write_help_usage` (one line per visible subcommand, recursively) is `helpUsageTree`.
 -/
 import ClapModel.Validator
 import ClapModel.HelpTypes
@@ -264,6 +264,63 @@ def subUsageName (c : Cmd) (u : UInfo) (binName : Bytes) (sc : Cmd) : Option Byt
       (match sc.shortFlag with | some s => [124, 45] ++ s | none => [])
     let names := if sc.longFlag.isSome || sc.shortFlag.isSome then [123] ++ names0 ++ [125] else names0
     binName ++ mid ++ names
+
+/-! ### `flatten_help`: `write_help_usage` over the tree -/
+
+/-- what the usage line reads beyond `Cmd`, for a whole tree: one `UInfo` per level, the level's `flatten_help`
+setting, and the same for the user-defined subcommands in definition order (the generated `help` subcommand has none) -/
+inductive UTree
+  | mk (info : UInfo) (flatten : Bool) (subs : List UTree)
+
+def UTree.info : UTree → UInfo | .mk i _ _ => i
+def UTree.flatten : UTree → Bool | .mk _ f _ => f
+def UTree.subs : UTree → List UTree | .mk _ _ s => s
+
+/-- the subcommands of a built level paired with their `UTree` (`none` for the generated `help` subcommand, which comes
+after the user-defined ones) -/
+def pairSubs : List Cmd → List UTree → List (Cmd × Option UTree)
+  | [], _ => []
+  | s :: ss, [] => (s, none) :: pairSubs ss []
+  | s :: ss, t :: ts => (s, some t) :: pairSubs ss ts
+
+/-- `write_usage_no_title(&[])` for the level `c` of a tree built with `Command::build()`; `bin` is the level's
+`bin_name`, `t.info.usageName` its `usage_name`; `fuel` bounds the depth -/
+def helpUsageTree : Nat → Cmd → UTree → Bytes → Option Bytes
+  | 0, _, _, _ => none
+  | fuel+1, c, t, bin =>
+    let u := t.info
+    match u.overrideUsage with
+    | some o => some o
+    | none =>
+      let required := Validator.requiredGraph c
+      if hasVisibleSubs c u && t.flatten then
+        let head : Option Bytes :=
+          if !c.settings.subcommandRequired || c.settings.argsConflictsWithSubcommands then
+            (writeArgUsage c u required [] true).map fun x => trimEnd x ++ b_SEP
+          else some []
+        let visible := (pairSubs c.subs t.subs).filter fun p => !u.hiddenSubs.contains p.1.name
+        let step := fun (acc : Option (Bytes × Bool)) (p : Cmd × Option UTree) =>
+          match acc with
+          | none => none
+          | some (sofar, first) =>
+            let sofar := if first then sofar else trimEnd sofar ++ b_SEP
+            match subUsageName c u bin p.1 with
+            | none => none
+            | some un =>
+              let line : Option Bytes :=
+                match p.2 with
+                | none =>
+                  -- the generated `help` subcommand, its tree expanded by `build()`: `<usage name> [COMMAND]`
+                  some (un ++ [32] ++ [91] ++ b_COMMAND ++ [93])
+                | some st =>
+                  helpUsageTree fuel p.1 (.mk { st.info with usageName := un } st.flatten st.subs) (bin ++ [32] ++ p.1.name)
+              line.map fun l => (sofar ++ l, false)
+        (visible.foldl step (head.map fun h => (h, true))).map (·.1)
+      else writeHelpUsage c u required
+
+/-- `render_usage()` of a level of a built tree -/
+def renderUsageTree (fuel : Nat) (c : Cmd) (t : UTree) (bin : Bytes) : Option Bytes :=
+  (helpUsageTree fuel c t bin).map fun x => trimEnd (b_UsageTitle ++ x)
 
 /-! ### what a `MissingRequiredArgument` error carries (`Validator::validate_required` → `missing_required_error`) -/
 
